@@ -205,6 +205,8 @@ def _prio(env, com, kind, step):
         return env.int("prio%d" % step, 0, 30)
     if kind == "const":
         return env.choice("prio%d" % step, [com.MSG_MGT, com.MSG_ALGO, None, com.MSG_VALUE])
+    if kind == "two":
+        return env.choice("prio%d" % step, [com.MSG_ALGO, com.MSG_MGT])
     if kind == "mixed":
         k = env.choice("priokind%d" % step, ["sym", com.MSG_MGT, None])
         return env.int("prio%d" % step, 0, 30) if k == "sym" else k
@@ -307,22 +309,29 @@ class _Stop(Exception):
 
 
 def _shapes_messaging(tier):
+    # a symbolic path costs ~10 ms, a concrete one ~0.2 ms
     s = [
-        dict(n_ops=4, prio="sym"),
-        dict(n_ops=5, prio="sym", senders=["s_loc"]),
-        dict(n_ops=5, prio="sym", senders=["r_snd"], late=["b_late"]),
+        dict(n_ops=3, prio="sym"),
+        dict(n_ops=4, prio="sym", senders=["s_loc"]),
+        dict(n_ops=4, prio="sym", senders=["r_snd"], late=["b_late"]),
         dict(n_ops=3, prio="const"),
         dict(n_ops=4, prio="const", senders=["r_snd"]),
-        dict(n_ops=4, prio="mixed", senders=["s_loc"], late=["b_late"]),
+        dict(n_ops=5, prio="two", senders=["s_loc"]),
+        dict(n_ops=3, prio="mixed", late=["b_late"]),
     ]
     if tier == "thorough":
         s += [
-            dict(n_ops=5, prio="sym"),
-            dict(n_ops=6, prio="sym", senders=["s_loc"]),
+            dict(n_ops=4, prio="sym"),
+            dict(n_ops=5, prio="sym", senders=["s_loc"]),
+            dict(n_ops=5, prio="sym", senders=["r_snd"], late=["b_late"]),
             dict(n_ops=4, prio="const"),
-            dict(n_ops=5, prio="mixed", senders=["r_snd"]),
-            dict(n_ops=4, prio="sym", late=["e_late", "b_late"]),
-            dict(n_ops=5, prio="sym", senders=["s_loc"], unregister=True),
+            dict(n_ops=5, prio="two"),
+            dict(n_ops=6, prio="two", senders=["r_snd"]),
+            dict(n_ops=4, prio="mixed", senders=["s_loc"], late=["b_late"]),
+            dict(n_ops=3, prio="sym", late=["e_late", "b_late"]),
+            dict(n_ops=5, prio="two", late=["e_late", "b_late"], senders=["s_loc"]),
+            dict(n_ops=4, prio="sym", senders=["s_loc"], unregister=True),
+            dict(n_ops=6, prio="two", senders=["s_loc"], unregister=True),
         ]
     return s
 
@@ -345,4 +354,279 @@ Contract(
                  "it must still not be delivered twice"],
     budget=dict(quick=dict(max_paths=400000, timeout_s=300), thorough=dict(max_paths=4000000, timeout_s=3000)),
     desc="every history of <= 5 post/register/next_msg/shutdown operations on a real Messaging: exactly once, lowest type first, FIFO per sender, held until registration, drained after shutdown",
+)
+
+
+# ---------------------------------------------------------------- the agent loop (C18)
+
+class _NoThread:
+    """stands for the agent's thread: Agent.start() 'starts' it, the harness then runs the
+    thread's target (Agent._run) itself, in the calling thread"""
+    daemon = False
+
+    def start(self):
+        pass
+
+    def join(self, timeout=None):
+        pass
+
+
+_REC_CLASS = {}
+
+
+def _rec_class(cmp_):
+    """a computation whose registered handler records (destination, sender, message)"""
+    if cmp_ not in _REC_CLASS:
+        class RecComputation(cmp_.MessagePassingComputation):
+            def __init__(self, name, sink):
+                super().__init__(name)
+                self.sink = sink
+
+            @cmp_.register("ping")
+            def _on_ping(self, sender, msg, t):
+                self.sink(self.name, sender, msg, t)
+
+        _REC_CLASS[cmp_] = RecComputation
+    return _REC_CLASS[cmp_]
+
+
+_ENGINE_EXC = (PathAbort, Unsupported, BudgetExceeded)
+
+
+def h_agent_loop(env):
+    p = env.params
+    mods = env.call(_infra)
+    ag = env.call(importlib.import_module, "pydcop.infrastructure.agents")
+    if isinstance(mods, Raised) or isinstance(ag, Raised):
+        env.prove("agent.modules-import", False, detail=lambda: (mods, ag))
+        return
+    com, dis, cmp_ = mods
+    area = "agent"
+    ag.sleep = lambda s: None          # Agent._on_stop waits 0.5 s for the network: no network here
+    Rec = _rec_class(cmp_)
+    late = list(p.get("late", ["e_late"]))
+    senders = list(p.get("senders", _SENDERS))
+    dests = ["k_reg"] + late
+
+    a1 = ag.Agent("a_one", com.InProcessCommunicationLayer())
+    a2 = ag.Agent("a_two", com.InProcessCommunicationLayer())
+    a1.t = _NoThread()
+    a2.discovery.register_agent("a_one", a1.address, publish=False)
+    model = _InboxModel(com.MSG_ALGO)
+    st = dict(budget=p["n_ops"], shutdown=False, step=0, handled=[], engine_exc=None, fatal=[], in_loop=False,
+              current=None, nmsg=0)
+
+    def guarded(fn):
+        """harness code that runs inside Agent._run: the loop's 'except Exception' / bare 'except:' would swallow
+        the engine's control exceptions and the harness' own errors, so they are kept and re-raised afterwards"""
+        def g(*a, **kw):
+            try:
+                return fn(*a, **kw)
+            except BaseException as e:  # noqa
+                if st["engine_exc"] is None:
+                    st["engine_exc"] = e
+                a1.stop()
+                return None
+        return g
+
+    @guarded
+    def sink(dest, sender, msg, t):
+        st["handled"].append((dest, sender, msg))
+        cur = st["current"]
+        st["current"] = None
+        env.cover("handled")
+        # the agent took ``cur`` out of the inbox and hands it to a computation: same message, right computation
+        env.prove(area + ".handler-gets-the-message-just-taken-from-the-inbox-with-its-sender",
+                  cur is not None and cur[2] is msg and cur[0] == sender and cur[1] == dest,
+                  detail=lambda: dict(taken=cur, handed=(dest, sender, msg)))
+
+    comps = {}
+
+    def add(agent, name):
+        c = Rec(name, sink)
+        comps[name] = c
+        r = env.call(agent.add_computation, c)
+        if isinstance(r, Raised):
+            return r
+        return env.call(c.start)     # what Agent.run() does for each hosted computation
+
+    for agent, name in ((a1, "s_loc"), (a1, "k_reg"), (a2, "r_snd")):
+        r = add(agent, name)
+        if isinstance(r, Raised):
+            env.prove(area + ".add_computation-never-raises", False, detail=lambda: r.tb)
+            return
+    model.registered.add("k_reg")
+    for d in dests:
+        a2.discovery.register_computation(d, "a_one", a1.address, publish=False)
+
+    # ---- observation points: what next_msg returns inside the loop, and fatal errors of the loop
+    real_next = a1._messaging.next_msg
+
+    def next_msg(timeout=0):
+        # the loop waits up to 50 ms for a message; nobody else can post while this (single) thread
+        # waits, so the wait is cut to 0: same result, no sleeping
+        try:
+            r = real_next(0)
+        except _ENGINE_EXC as e:        # Agent._run has a bare 'except:' that would swallow the engine's signals
+            st["engine_exc"] = e
+            raise
+        observe_next(r)
+        return r
+
+    @guarded
+    def observe_next(r):
+        full = r[0] if isinstance(r, tuple) and r else None
+        if full is not None:
+            env.prove(area + ".previous-message-was-handed-to-a-computation-before-the-next-is-taken",
+                      st["current"] is None, detail=lambda: st["current"])
+            ok = isinstance(full, tuple) and len(full) == 4
+            env.prove(area + ".next_msg-returns-a-ComputationMessage", ok, detail=lambda: full)
+            if ok:
+                st["current"] = tuple(full)
+                _check_delivery(env, area, model, full[0], full[1], full[2], full[3])
+        else:
+            env.prove(area + ".loop-sees-an-empty-inbox-only-when-nothing-is-pending", not model.queued(),
+                      detail=lambda: dict(pending=model.queued()))
+
+    a1._messaging.next_msg = next_msg
+    a1.on_fatal_error = lambda e: st["fatal"].append(e)
+
+    def do_op():
+        step = st["step"]
+        st["step"] += 1
+        st["budget"] -= 1
+        opts = [("post", s, d) for s in senders for d in dests]
+        opts += [("add", d) for d in late if d not in model.registered]
+        if not st["shutdown"]:
+            opts.append(("shutdown",))
+        op = env.choice("op%d" % step, opts)
+        if op[0] == "post":
+            prio = _prio(env, com, p["prio"], step)
+            st["nmsg"] += 1
+            msg = cmp_.Message("ping", 100 + st["nmsg"])
+            model.post(op[1], op[2], prio, msg)
+            if op[2] not in model.registered and not st["shutdown"]:
+                env.cover("held")
+            if st["in_loop"]:
+                env.cover("posted-while-running")
+            # through the computation's own API (MessagePassingComputation.post_msg -> Messaging.post_msg
+            # [-> InProcessCommunicationLayer.send_msg/receive_msg -> Messaging.post_msg of a_one])
+            r = env.call(comps[op[1]].post_msg, op[2], msg, prio)
+            if isinstance(r, Raised):
+                env.prove(area + ".post_msg-never-raises", False, detail=lambda: r.tb)
+                raise _Stop()
+        elif op[0] == "add":
+            if model.held(op[1]) and not st["shutdown"]:
+                env.cover("released")
+            r = add(a1, op[1])
+            model.register(op[1])
+            if isinstance(r, Raised):
+                env.prove(area + ".add_computation-never-raises", False, detail=lambda: r.tb)
+                raise _Stop()
+        else:
+            if model.queued():
+                env.cover("shutdown-with-pending-messages")
+            a1.clean_shutdown()
+            st["shutdown"] = True
+            model.shutdown = True
+
+    real_ppa = a1._process_periodic_action
+
+    def between_two_loop_iterations():
+        # the place where the effect of another thread's post / registration / shutdown request
+        # becomes visible to the loop
+        real_ppa()
+        if st["engine_exc"] is None:
+            inject()
+
+    @guarded
+    def inject():
+        while st["budget"] > 0 and (not model.queued() or env.choice("inject%d" % st["step"], [False, True])):
+            do_op()
+        if st["budget"] <= 0 and not st["shutdown"]:
+            if model.queued():
+                env.cover("shutdown-with-pending-messages")
+            a1.clean_shutdown()
+            st["shutdown"] = True
+            model.shutdown = True
+
+    a1._process_periodic_action = between_two_loop_iterations
+
+    try:
+        # operations before the agent's thread runs (messages can be posted to a Messaging from its creation)
+        while st["budget"] > 0 and env.choice("before_start%d" % st["step"], [False, True]):
+            do_op()
+    except _Stop:
+        return
+    r = env.call(a1.start)
+    if isinstance(r, Raised):
+        env.prove(area + ".start-never-raises", False, detail=lambda: r.tb)
+        return
+    st["in_loop"] = True
+    r = env.call(a1._run)
+    st["in_loop"] = False
+    if st["engine_exc"] is not None:
+        if isinstance(st["engine_exc"], _Stop):
+            return
+        raise st["engine_exc"]
+    env.cover("loop-ended")
+    env.prove(area + ".loop-ends-after-a-clean-shutdown-without-error", (not isinstance(r, Raised)) and not st["fatal"],
+              detail=lambda: (r.tb if isinstance(r, Raised) else None, st["fatal"]))
+    env.prove(area + ".loop-ended-because-of-the-shutdown", st["shutdown"])
+    missing = [x for x in model.records if x.state == "queued"]
+    env.prove(area + ".every-message-queued-before-the-clean-shutdown-was-handled",
+              not missing and st["current"] is None, detail=lambda: dict(missing=missing, all=model.records, current=st["current"]))
+    for x in model.records:
+        n = sum(1 for (d, s, m) in st["handled"] if m is x.msg)
+        if x.state == "delivered":
+            env.prove(area + ".each-message-handled-exactly-once-by-its-destination",
+                      n == 1 and all(d == x.dest and s == x.sender for (d, s, m) in st["handled"] if m is x.msg),
+                      detail=lambda: dict(record=x, handled=st["handled"]))
+        else:
+            env.prove(area + ".no-message-handled-before-its-destination-registered-or-twice", n == 0,
+                      detail=lambda: dict(record=x, handled=st["handled"]))
+
+
+def _shapes_agent(tier):
+    s = [
+        dict(n_ops=3, prio="const"),
+        dict(n_ops=4, prio="two", senders=["s_loc"]),
+        dict(n_ops=4, prio="two", senders=["r_snd"], late=["b_late"]),
+        dict(n_ops=3, prio="sym", senders=["r_snd"]),
+    ]
+    if tier == "thorough":
+        s += [
+            dict(n_ops=4, prio="two"),
+            dict(n_ops=5, prio="two", senders=["s_loc"]),
+            dict(n_ops=4, prio="const", senders=["r_snd"]),
+            dict(n_ops=3, prio="sym"),
+            dict(n_ops=4, prio="sym", senders=["s_loc"]),
+            dict(n_ops=4, prio="two", late=["e_late", "b_late"], senders=["s_loc"]),
+        ]
+    return s
+
+
+Contract(
+    "agent.run-loop", ["C18"],
+    ["pydcop.infrastructure.agents:Agent._run", "pydcop.infrastructure.agents:Agent._handle_message",
+     "pydcop.infrastructure.agents:Agent.clean_shutdown", "pydcop.infrastructure.agents:Agent.add_computation",
+     "pydcop.infrastructure.agents:Agent.start", "pydcop.infrastructure.agents:Agent._on_start",
+     "pydcop.infrastructure.agents:Agent._on_stop",
+     "pydcop.infrastructure.communication:Messaging.post_msg", "pydcop.infrastructure.communication:Messaging.next_msg",
+     "pydcop.infrastructure.communication:Messaging._on_computation_registration",
+     "pydcop.infrastructure.communication:Messaging.shutdown",
+     "pydcop.infrastructure.computations:MessagePassingComputation.on_message",
+     "pydcop.infrastructure.computations:MessagePassingComputation.post_msg"],
+    h_agent_loop, _shapes_agent, mode="B",
+    must_cover=["handled", "held", "released", "posted-while-running", "shutdown-with-pending-messages", "loop-ended"],
+    trusted=["Agent._run is executed in the harness' thread (Agent.t replaced by a no-op thread object); the operations of the "
+             "other threads are injected between two iterations of the loop (hook on Agent._process_periodic_action)",
+             "the 50 ms wait of next_msg inside the loop is cut to 0 (single thread: nothing can arrive while waiting); "
+             "agents.sleep is a no-op (Agent._on_stop's 0.5 s network grace period)"],
+    assumptions=["C18: the agent loop is run by one thread and the posts / registrations / shutdown request of the other threads take "
+                 "effect between two loop iterations or before the loop starts; finer preemption points are NOT decided",
+                 "C18: destinations are started computations (messages to a computation that is not started or is paused are "
+                 "buffered by the computation itself: property C19)"],
+    budget=dict(quick=dict(max_paths=400000, timeout_s=300), thorough=dict(max_paths=4000000, timeout_s=3000)),
+    desc="real Agent loop: every history of <= 4 post/add_computation/clean_shutdown operations placed before the start or between loop iterations; each queued message handled once by its destination, by type then FIFO, all of them before the loop ends",
 )
